@@ -3,7 +3,7 @@
 From Coq Require Import String List Bool NArith ZArith.
 From OP Require Import Base.Str Base.Check Base.ParserTypes Base.Res Base.Json Base.Sx Base.DTree
                        Gen.GParser Gen.GChecks Gen.GPolicy
-                       Model.Leaf Model.SR Model.Tokenize Model.Print Model.Eval Model.Enforce
+                       Model.Leaf Model.SR Model.Tokenize Model.Print Model.Eval Model.Trace Model.Enforce
                        Spec.Grammar Spec.ListRule.
 Import ListNotations.
 Set Implicit Arguments.
@@ -196,6 +196,13 @@ Definition suite_parse_tokens (args : list sx) : sx :=
   | _ => bad
   end.
 
+Definition sx_of_event (e : event) : sx :=
+  match e with
+  | EvCustom id cur => L [A 0; sx_of_N id; sx_of_option sx_of_str cur]
+  | EvHttp url cur => L [A 1; sx_of_str url; sx_of_option sx_of_str cur]
+  end.
+
+(* -> [result; trace] *)
 Definition suite_enforce (args : list sx) : sx :=
   match args with
   | [ex; cx; ca; ra; dr; xc; auth] =>
@@ -203,11 +210,16 @@ Definition suite_enforce (args : list sx) : sx :=
       | Some ex' =>
           match dectx ex' cx, dcredarg ca, drulearg ex' ra, dbool dr, dexc xc, dbool auth with
           | Some cx', Some ca', Some ra', Some dr', Some xc', Some auth' =>
-              sx_of_res sx_of_bool
-                (if auth' then match ra' with
-                               | RName n => authorize cx' ca' n dr' xc'
-                               | _ => Raise (EOther 95) end
-                 else enforce cx' ca' ra' dr' xc')
+              let registered := match ra' with
+                                | RName n => match assoc n (e_registered cx') with Some _ => true | None => false end
+                                | _ => false end in
+              L [sx_of_res sx_of_bool
+                   (if auth' then match ra' with
+                                  | RName n => authorize cx' ca' n dr' xc'
+                                  | _ => Raise (EOther 95) end
+                    else enforce cx' ca' ra' dr' xc');
+                 sx_of_list sx_of_event
+                   (if auth' && negb registered then [] else enforce_trace cx' ca' ra' dr')]
           | _, _, _, _, _, _ => bad
           end
       | None => bad
